@@ -803,7 +803,8 @@ pub fn run_scenario(spec: &Value) -> Vec<Value> {
         "sync": spec["sync"].as_bool().unwrap_or(false), "close": spec["close"].as_bool().unwrap_or(false),
         "allow_err": spec["allow_err"].as_bool().unwrap_or(false),
         "infinite": spec["infinite"].as_bool().unwrap_or(false), "finite_source": spec["finite_source"].as_bool().unwrap_or(false),
-        "partial": spec["no_settle"].as_bool().unwrap_or(false),
+        "partial": spec["no_settle"].as_bool().unwrap_or(false) || spec["partial"].as_bool().unwrap_or(false),
+        "tagvalue": spec["tagvalue"].as_bool().unwrap_or(false),
         "fn": if spec["fn"].is_object() { spec["fn"].clone() } else { json!({"kind": "none"}) },
         "tagmap": if spec["tagmap"].is_object() { spec["tagmap"].clone() } else { json!({"kind": "none", "arg": 0}) }}));
     let mode = spec["mode"].as_str().unwrap_or("ref");
